@@ -1,0 +1,121 @@
+//go:build verif
+
+// Property C12 (context availability follows GitHub's table): every call of a checker in the
+// visitor callbacks passes the workflow key of the field it checks. The key of a field is the
+// entry of GitHub's "Context availability" table for the field's YAML path ("" for fields that
+// are not in the table). `from(x, "T.f")` holds when the argument was read from field f of a T
+// (syntactic provenance); the last disjunct of each clause makes the list exhaustive, so a new
+// call must be given its key here. The table itself (WorkflowKeyAvailability) is compared with the
+// page copy scripts/generate-availability/testdata/ok.md by a contract generated on every run.
+// Written from the table, not from the code. Verified by govc.
+
+package actionlint
+
+//@ func (*RuleExpression).VisitWorkflowPre
+//@   props C12
+//@   at_call [C12] (*RuleExpression).checkString: (from(str, "Workflow.Name") ==> workflowKey == "") && (from(str, "Workflow.RunName") ==> workflowKey == "run-name") && (from(str, "DispatchInput.Description") ==> workflowKey == "") && (from(str, "DispatchInput.Default") ==> workflowKey == "") && (from(str, "WorkflowCallEventInput.Description") ==> workflowKey == "") && (from(str, "WorkflowCallEventInput.Default") ==> workflowKey == "on.workflow_call.inputs.<inputs_id>.default") && (from(str, "WorkflowCallEventSecret.Description") ==> workflowKey == "") && (from(str, "WorkflowCallEventOutput.Description") ==> workflowKey == "") && (from(str, "Workflow.Name") || from(str, "Workflow.RunName") || from(str, "DispatchInput.Description") || from(str, "DispatchInput.Default") || from(str, "WorkflowCallEventInput.Description") || from(str, "WorkflowCallEventInput.Default") || from(str, "WorkflowCallEventSecret.Description") || from(str, "WorkflowCallEventOutput.Description"))
+//@   at_call [C12] (*RuleExpression).checkEnv: (from(env, "Workflow.Env") ==> workflowKey == "env") && (from(env, "Workflow.Env"))
+//@   at_call [C12] (*RuleExpression).checkDefaults: (from(d, "Workflow.Defaults") ==> workflowKey == "") && (from(d, "Workflow.Defaults"))
+//@   at_call [C12] (*RuleExpression).checkConcurrency: (from(c, "Workflow.Concurrency") ==> workflowKey == "concurrency") && (from(c, "Workflow.Concurrency"))
+//@   at_call [C12] (*RuleExpression).checkStrings: (from(ss, "WebhookEvent.Types") ==> workflowKey == "") && (from(ss, "WebhookEvent.Workflows") ==> workflowKey == "") && (from(ss, "ScheduledEvent.Cron") ==> workflowKey == "") && (from(ss, "DispatchInput.Options") ==> workflowKey == "") && (from(ss, "RepositoryDispatchEvent.Types") ==> workflowKey == "") && (from(ss, "WebhookEvent.Types") || from(ss, "WebhookEvent.Workflows") || from(ss, "ScheduledEvent.Cron") || from(ss, "DispatchInput.Options") || from(ss, "RepositoryDispatchEvent.Types"))
+//@   at_call [C12] (*RuleExpression).checkBool: (from(b, "DispatchInput.Required") ==> workflowKey == "") && (from(b, "WorkflowCallEventInput.Required") ==> workflowKey == "") && (from(b, "WorkflowCallEventSecret.Required") ==> workflowKey == "") && (from(b, "DispatchInput.Required") || from(b, "WorkflowCallEventInput.Required") || from(b, "WorkflowCallEventSecret.Required"))
+//@ func (*RuleExpression).checkWebhookEventFilter
+//@   props C12
+//@   at_call [C12] (*RuleExpression).checkStrings: (from(ss, "WebhookEventFilter.Values") ==> workflowKey == "") && (from(ss, "WebhookEventFilter.Values"))
+//@ func (*RuleExpression).checkWorkflowCallOutputs
+//@   props C12
+//@   at_call [C12] (*RuleExpression).checkString: (from(str, "WorkflowCallEventOutput.Value") ==> workflowKey == "on.workflow_call.outputs.<output_id>.value") && (from(str, "WorkflowCallEventOutput.Value"))
+//@ func (*RuleExpression).VisitJobPre
+//@   props C12
+//@   at_call [C12] (*RuleExpression).checkString: (from(str, "Job.Name") ==> workflowKey == "jobs.<job_id>.name") && (from(str, "Runner.Group") ==> workflowKey == "jobs.<job_id>.runs-on")
+//@   loop "range n.RunsOn.Labels":
+//@     at_call [C12] (*RuleExpression).checkString: workflowKey == "jobs.<job_id>.runs-on"
+//@   at_call [C12] (*RuleExpression).checkOneExpression: (from(s, "Runner.LabelsExpr") ==> workflowKey == "jobs.<job_id>.runs-on") && (from(s, "Runner.LabelsExpr"))
+//@   at_call [C12] (*RuleExpression).checkStrings: (from(ss, "Job.Needs") ==> workflowKey == "") && (from(ss, "Job.Needs"))
+//@   at_call [C12] (*RuleExpression).checkConcurrency: (from(c, "Job.Concurrency") ==> workflowKey == "jobs.<job_id>.concurrency") && (from(c, "Job.Concurrency"))
+//@   at_call [C12] (*RuleExpression).checkEnv: (from(env, "Job.Env") ==> workflowKey == "jobs.<job_id>.env") && (from(env, "Job.Env"))
+//@   at_call [C12] (*RuleExpression).checkDefaults: (from(d, "Job.Defaults") ==> workflowKey == "jobs.<job_id>.defaults.run") && (from(d, "Job.Defaults"))
+//@   at_call [C12] (*RuleExpression).checkIfCondition: (from(str, "Job.If") ==> workflowKey == "jobs.<job_id>.if") && (from(str, "Job.If"))
+//@   at_call [C12] (*RuleExpression).checkBool: (from(b, "Job.ContinueOnError") ==> workflowKey == "jobs.<job_id>.continue-on-error") && (from(b, "Strategy.FailFast") ==> workflowKey == "jobs.<job_id>.strategy") && (from(b, "Job.ContinueOnError") || from(b, "Strategy.FailFast"))
+//@   at_call [C12] (*RuleExpression).checkInt: (from(i, "Strategy.MaxParallel") ==> workflowKey == "jobs.<job_id>.strategy") && (from(i, "Strategy.MaxParallel"))
+//@   at_call [C12] (*RuleExpression).checkFloat: (from(f, "Job.TimeoutMinutes") ==> workflowKey == "jobs.<job_id>.timeout-minutes") && (from(f, "Job.TimeoutMinutes"))
+//@   at_call [C12] (*RuleExpression).checkObjectExpression: (from(s, "Services.Expression") ==> workflowKey == "jobs.<job_id>.services") && (from(s, "Services.Expression"))
+//@   at_call [C12] (*RuleExpression).checkContainer: (from(c, "Job.Container") ==> workflowKey == "jobs.<job_id>.container" && childWorkflowKeyPrefix == "") && (from(c, "Service.Container") ==> workflowKey == "jobs.<job_id>.services" && childWorkflowKeyPrefix == "<service_id>") && (from(c, "Job.Container") || from(c, "Service.Container"))
+//@ func (*RuleExpression).VisitJobPost
+//@   props C12
+//@   at_call [C12] (*RuleExpression).checkString: (from(str, "Environment.Name") ==> workflowKey == "jobs.<job_id>.environment") && (from(str, "Environment.URL") ==> workflowKey == "jobs.<job_id>.environment.url") && (from(str, "Output.Value") ==> workflowKey == "jobs.<job_id>.outputs.<output_id>") && (from(str, "Environment.Name") || from(str, "Environment.URL") || from(str, "Output.Value"))
+//@ func (*RuleExpression).checkWorkflowCall
+//@   props C12
+//@   at_call [C12] (*RuleExpression).checkString: (from(str, "WorkflowCall.Uses") ==> workflowKey == "") && (from(str, "WorkflowCallInput.Value") ==> workflowKey == "jobs.<job_id>.with.<with_id>") && (from(str, "WorkflowCallSecret.Value") ==> workflowKey == "jobs.<job_id>.secrets.<secrets_id>") && (from(str, "WorkflowCall.Uses") || from(str, "WorkflowCallInput.Value") || from(str, "WorkflowCallSecret.Value"))
+// container sections: image/ports/volumes/options use the key of the section, credentials and env
+// use <section>[.<child>].credentials and <section>[.<child>].env.<env_id>
+//@ func (*RuleExpression).checkContainer
+//@   props C12
+//@   at_call [C12] (*RuleExpression).checkString: ((from(str, "Credentials.Username") || from(str, "Credentials.Password")) ==> (childWorkflowKeyPrefix0 == "" ==> workflowKey == workflowKey0 + ".credentials") && (childWorkflowKeyPrefix0 != "" ==> workflowKey == workflowKey0 + "." + childWorkflowKeyPrefix0 + ".credentials")) && ((from(str, "Container.Image") || from(str, "Container.Options")) ==> workflowKey == workflowKey0) && (from(str, "Credentials.Username") || from(str, "Credentials.Password") || from(str, "Container.Image") || from(str, "Container.Options"))
+//@   at_call [C12] (*RuleExpression).checkStrings: (from(ss, "Container.Ports") || from(ss, "Container.Volumes")) && workflowKey == workflowKey0
+//@   at_call [C12] (*RuleExpression).checkEnv: from(env, "Container.Env") && (childWorkflowKeyPrefix0 == "" ==> workflowKey == workflowKey0 + ".env.<env_id>") && (childWorkflowKeyPrefix0 != "" ==> workflowKey == workflowKey0 + "." + childWorkflowKeyPrefix0 + ".env.<env_id>")
+//@ func (*RuleExpression).VisitStep
+//@   props C12
+//@   at_call [C12] (*RuleExpression).checkString: (from(str, "Step.Name") ==> workflowKey == "jobs.<job_id>.steps.name") && (from(str, "Step.ID") ==> workflowKey == "") && (from(str, "ExecRun.Shell") ==> workflowKey == "") && (from(str, "ExecRun.WorkingDirectory") ==> workflowKey == "jobs.<job_id>.steps.working-directory") && (from(str, "ExecAction.Uses") ==> workflowKey == "") && (from(str, "Input.Value") ==> workflowKey == "jobs.<job_id>.steps.with") && (from(str, "ExecAction.Entrypoint") ==> workflowKey == "jobs.<job_id>.steps.with") && (from(str, "ExecAction.Args") ==> workflowKey == "jobs.<job_id>.steps.with") && (from(str, "Step.Name") || from(str, "Step.ID") || from(str, "ExecRun.Shell") || from(str, "ExecRun.WorkingDirectory") || from(str, "ExecAction.Uses") || from(str, "Input.Value") || from(str, "ExecAction.Entrypoint") || from(str, "ExecAction.Args"))
+//@   at_call [C12] (*RuleExpression).checkIfCondition: (from(str, "Step.If") ==> workflowKey == "jobs.<job_id>.steps.if") && (from(str, "Step.If"))
+//@   at_call [C12] (*RuleExpression).checkScriptString: (from(str, "ExecRun.Run") ==> workflowKey == "jobs.<job_id>.steps.run") && (from(str, "Input.Value") ==> workflowKey == "jobs.<job_id>.steps.with") && (from(str, "ExecRun.Run") || from(str, "Input.Value"))
+//@   at_call [C12] (*RuleExpression).checkEnv: (from(env, "Step.Env") ==> workflowKey == "jobs.<job_id>.steps.env") && (from(env, "Step.Env"))
+//@   at_call [C12] (*RuleExpression).checkBool: (from(b, "Step.ContinueOnError") ==> workflowKey == "jobs.<job_id>.steps.continue-on-error") && (from(b, "Step.ContinueOnError"))
+//@   at_call [C12] (*RuleExpression).checkFloat: (from(f, "Step.TimeoutMinutes") ==> workflowKey == "jobs.<job_id>.steps.timeout-minutes") && (from(f, "Step.TimeoutMinutes"))
+
+// matrix: everything under strategy is checked with the key of jobs.<job_id>.strategy
+//@ func (*RuleExpression).checkMatrix
+//@   props C12
+//@   at_call [C12] (*RuleExpression).checkOneExpression: workflowKey == "jobs.<job_id>.strategy"
+//@   at_call [C12] (*RuleExpression).checkObjectExpression: workflowKey == "jobs.<job_id>.strategy"
+//@   at_call [C12] (*RuleExpression).checkArrayExpression: workflowKey == "jobs.<job_id>.strategy"
+//@ func (*RuleExpression).checkMatrixRow
+//@   props C12
+//@   at_call [C12] (*RuleExpression).checkArrayExpression: workflowKey == "jobs.<job_id>.strategy"
+//@ func (*RuleExpression).checkMatrixExpression
+//@   props C12
+//@   at_call [C12] (*RuleExpression).checkObjectExpression: workflowKey == "jobs.<job_id>.strategy"
+//@ func (*RuleExpression).checkRawYAMLString
+//@   props C12
+//@   at_call [C12] (*RuleExpression).checkExprsIn: workflowKey == "jobs.<job_id>.strategy"
+
+// the key reaches the semantic checker unchanged
+//@ func (*RuleExpression).checkString
+//@   at_call [C12] (*RuleExpression).checkExprsIn: workflowKey == workflowKey0
+//@ func (*RuleExpression).checkScriptString
+//@   at_call [C12] (*RuleExpression).checkExprsIn: workflowKey == workflowKey0
+//@ func (*RuleExpression).checkOneExpression
+//@   at_call [C12] (*RuleExpression).checkExprsIn: workflowKey == workflowKey0
+//@ func (*RuleExpression).checkObjectExpression
+//@   at_call [C12] (*RuleExpression).checkOneExpression: workflowKey == workflowKey0
+//@ func (*RuleExpression).checkArrayExpression
+//@   at_call [C12] (*RuleExpression).checkOneExpression: workflowKey == workflowKey0
+//@ func (*RuleExpression).checkNumberExpression
+//@   at_call [C12] (*RuleExpression).checkOneExpression: workflowKey == workflowKey0
+//@ func (*RuleExpression).checkBool
+//@   at_call [C12] (*RuleExpression).checkOneExpression: workflowKey == workflowKey0
+//@ func (*RuleExpression).checkInt
+//@   at_call [C12] (*RuleExpression).checkNumberExpression: workflowKey == workflowKey0
+//@ func (*RuleExpression).checkFloat
+//@   at_call [C12] (*RuleExpression).checkNumberExpression: workflowKey == workflowKey0
+//@ func (*RuleExpression).checkStrings
+//@   loop "range ss":
+//@     at_call [C12] (*RuleExpression).checkString: workflowKey == workflowKey0
+//@ func (*RuleExpression).checkEnv
+//@   at_call [C12] (*RuleExpression).checkObjectExpression: workflowKey == workflowKey0
+//@   loop "range env.Vars":
+//@     at_call [C12] (*RuleExpression).checkString: workflowKey == workflowKey0
+//@ func (*RuleExpression).checkConcurrency
+//@   at_call [C12] (*RuleExpression).checkString: workflowKey == workflowKey0
+//@   at_call [C12] (*RuleExpression).checkBool: workflowKey == workflowKey0
+//@ func (*RuleExpression).checkDefaults
+//@   at_call [C12] (*RuleExpression).checkString: workflowKey == workflowKey0
+//@ func (*RuleExpression).checkIfCondition
+//@   at_call [C12] (*RuleExpression).checkString: workflowKey == workflowKey0
+//@   at_call [C12] (*RuleExpression).checkSemanticsOfExprNode: workflowKey == workflowKey0
+//@ func (*RuleExpression).checkExprsIn
+//@   loop "for":
+//@     at_call [C12] (*RuleExpression).checkSemantics: workflowKey == workflowKey0
+//@ func (*RuleExpression).checkSemantics
+//@   at_call [C12] (*RuleExpression).checkSemanticsOfExprNode: workflowKey == workflowKey0
+
